@@ -92,6 +92,10 @@ class C07(Prop):
                 # several categorical features sharing a vocabulary, each with rare modalities (default group)
                 c = B.gen_case(rng, cls, force={"kind": "cat", "cflavour": "rare", "nfeat": rng.choice([2, 3]),
                                                 "n": rng.choice([120, 200, 400])})
+                # the second feature's FREQUENT modalities are the first one's rare / unseen ones (a <-> j ...)
+                f2 = c["features"][1]
+                f2["values"] = encs([chr(ord("a") + ord("j") - ord(v)) if isinstance(v, str) and len(v) == 1 and "a" <= v <= "j"
+                                     else v for v in decs(f2["values"])])
             elif i % 7 == 2 and cls != "QuantitativeDiscretizer":
                 # numeric-coded qualitative feature WITH missing values (StringDiscretizer path works in place)
                 c = B.gen_case(rng, cls, force={"kind": "cat", "cflavour": rng.choice(["ints", "floats", "mixed"]),
@@ -234,9 +238,12 @@ class C07(Prop):
                 continue
             if obj.str_default in obj.values_orders[nm].values():
                 col = list(Xu[nm])
+                # prefer values NEW for this feature that are known modalities of the other qualitative columns
+                own = set(v for v in obj.values_orders[nm].values() if isinstance(v, str))
+                new_here = [v for v in vocab if v not in own] or vocab
                 for i in range(len(col)):
                     if i % 5 == 2:
-                        col[i] = vocab[(i // 5) % len(vocab)]
+                        col[i] = new_here[(i // 5) % len(new_here)]
                 Xu[nm] = pd.Series(col, dtype=object)
                 injected = True
         if injected:
